@@ -203,9 +203,9 @@ func genProject(r *rand.Rand, o genOpts) *projSpec {
 		// references
 		pk := p.pkg(t.Pkg)
 		nr := r.IntN(5)
-		seenDefault, seenFree, seenTwins, seenCache, seenLate, seenStruct, seenKw := false, false, false, false, false, false, false
+		seenDefault, seenFree, seenTwins, seenCache, seenLate, seenStruct, seenKw, seenFnKeys := false, false, false, false, false, false, false, false
 		for k := 0; k < nr; k++ {
-			kinds := []string{"lit", "lit", "global", "global", "nested", "default", "freevar", "predecl", "target", "twins", "lateglobal", "structfn", "kwonly"}
+			kinds := []string{"lit", "lit", "global", "global", "nested", "default", "freevar", "predecl", "target", "twins", "lateglobal", "structfn", "kwonly", "fnkeys"}
 			if pk.Predecl {
 				kinds = append(kinds, "cacheonce")
 			}
@@ -248,6 +248,13 @@ func genProject(r *rand.Rand, o genOpts) *projSpec {
 					continue
 				}
 				seenStruct = true
+				ref.Val = genValue(r, literalKinds)
+			case "fnkeys":
+				// a dict and a set whose keys are functions, a struct and a tuple holding one
+				if seenFnKeys {
+					continue
+				}
+				seenFnKeys = true
 				ref.Val = genValue(r, literalKinds)
 			case "kwonly":
 				// a helper with a keyword-only parameter that has no default, and one that has
@@ -372,7 +379,7 @@ func (p *projSpec) inputItems(t *targetSpec) map[string]string {
 	for i, r := range t.Refs {
 		shape = append(shape, r.Kind+":"+r.Name)
 		switch r.Kind {
-		case "lit", "default", "freevar", "cacheonce", "structfn", "kwonly":
+		case "lit", "default", "freevar", "cacheonce", "structfn", "kwonly", "fnkeys":
 			out[fmt.Sprintf("ref|%s|%d", t.label(), i)] = r.Val.render()
 		case "twins", "lateglobal":
 			out[fmt.Sprintf("ref|%s|%d", t.label(), i)] = r.Val.render()
